@@ -290,7 +290,10 @@ def r4_stop_phase_executor(report, repo, rule='C03-R4'):
     if fin is not None:
       stops = lib.nodes_with_call(g, attr='stop')
       resets = lib.nodes_with_call(g, attr='reset_stop')
-      ok = all(core.in_block(c2, fin[0], 'body') for _, c2 in stops + resets)
+      # the stop/reset pair this release belongs to is in its try body (a
+      # forced path that never takes the lock has its own pair elsewhere)
+      ok = any(core.in_block(c2, fin[0], 'body') for _, c2 in stops) and any(
+          core.in_block(c2, fin[0], 'body') for _, c2 in resets)
       report.check(ok and bool(stops) and bool(resets), rule, f.qualname,
                    'reset-before-release', c,
                    'stop() and reset_stop() are in the try whose finally '
@@ -300,8 +303,8 @@ def r4_stop_phase_executor(report, repo, rule='C03-R4'):
                    'the release: teardown phases can start with the stop flag '
                    'still set')
   st = [c for _, c in lib.nodes_with_call(g, attr='stop')]
-  ok = len(st) == 1 and dotted(core.get_kw(st[0], 'timeout_s', 0)) == \
-      'CONF.cancel_timeout_s'
+  ok = len(st) >= 1 and all(dotted(core.get_kw(x, 'timeout_s', 0)) ==
+                            'CONF.cancel_timeout_s' for x in st)
   report.check(ok, rule, f.qualname, 'bounded-stop', f.node,
                'stop() waits at most CONF.cancel_timeout_s')
 
